@@ -12,30 +12,84 @@ MUT = {"append", "extend", "insert", "update", "setdefault", "pop", "popitem", "
 
 
 def state_writes(ix):
+    """-> [(function, attribute root written ('self._x', 'cls._y', 'Class.z', 'global g') or 'memoised:<decorator>', line)]
+    Writes through a local alias of such an attribute (`m = self._map[k]; m[x] = y`) count as writes to the attribute."""
     out = []
     for q, f in sorted(ix.fns.items()):
         if f.module.startswith("nunavut.cli") or f.name in ("__init__", "__set_name__"):
             continue
-        decos = [ast.unparse(d) for d in f.node.decorator_list]
-        if any("lru_cache" in d or "cached_property" in d or d.endswith(".cache") for d in decos):
-            out.append((q, "memoised", f.node.lineno))
+        for d in f.node.decorator_list:
+            t = ast.unparse(d)
+            if "lru_cache" in t or "cached_property" in t or t.endswith(".cache"):
+                out.append((q, "memoised:" + t.split("(")[0].split(".")[-1], f.node.lineno))
+
+        def root_of(e):
+            base = e
+            while isinstance(base, ast.Subscript):
+                base = base.value
+            if isinstance(base, ast.Attribute):
+                r = ast.unparse(base.value)
+                if r in ("self", "cls") or r[:1].isupper():
+                    return f"{r}.{base.attr}"
+                if r.endswith(".__dict__") or base.attr == "__dict__":
+                    return ast.unparse(base)
+            return None
+
+        aliases = {}
+        for n in ast.walk(f.node):
+            if isinstance(n, ast.Assign) and len(n.targets) == 1 and isinstance(n.targets[0], ast.Name):
+                r = root_of(n.value)
+                if r is None and isinstance(n.value, ast.Call) and isinstance(n.value.func, ast.Attribute) and n.value.func.attr in ("get", "setdefault"):
+                    r = root_of(n.value.func.value)
+                if r is None and isinstance(n.value, ast.Name) and n.value.id in aliases:
+                    r = aliases[n.value.id]
+                if r is not None:
+                    aliases[n.targets[0].id] = r
         for n in ast.walk(f.node):
             if isinstance(n, ast.Global):
-                out.append((q, f"global {n.names}", n.lineno))
+                for g in n.names:
+                    out.append((q, f"global {g}", n.lineno))
             if isinstance(n, (ast.Assign, ast.AugAssign, ast.AnnAssign)):
                 tg = n.targets if isinstance(n, ast.Assign) else [n.target]
                 for t in tg:
-                    base = t
-                    while isinstance(base, ast.Subscript):
-                        base = base.value
-                    if isinstance(base, ast.Attribute):
-                        r = ast.unparse(base.value)
-                        if r in ("self", "cls") or r[:1].isupper():
-                            out.append((q, ast.unparse(t)[:60], n.lineno))
+                    r = root_of(t) if isinstance(t, (ast.Attribute, ast.Subscript)) else None
+                    if r is None and isinstance(t, ast.Subscript):
+                        base = t
+                        while isinstance(base, ast.Subscript):
+                            base = base.value
+                        if isinstance(base, ast.Name) and base.id in aliases:
+                            r = aliases[base.id]
+                    if r is not None:
+                        out.append((q, r, n.lineno))
             if isinstance(n, ast.Call) and isinstance(n.func, ast.Attribute) and n.func.attr in MUT:
-                r = ast.unparse(n.func.value)
-                if r.startswith("self.") or r.startswith("cls."):
-                    out.append((q, ast.unparse(n)[:70], n.lineno))
+                r = root_of(n.func.value)
+                if r is None and isinstance(n.func.value, ast.Name) and n.func.value.id in aliases:
+                    r = aliases[n.func.value.id]
+                if r is not None:
+                    out.append((q, r, n.lineno))
+    return out
+
+
+def param_mutations(ix):
+    """in-place mutation of a list/dict PARAMETER (the caller's object) in the generator/filter code"""
+    out = []
+    for q, f in sorted(ix.fns.items()):
+        if not (f.module.startswith("nunavut.jinja") or f.module.startswith("nunavut.lang") or f.module in ("nunavut._generators", "nunavut._postprocessors")):
+            continue
+        if "jinja2" in f.module:
+            continue
+        params = {a.arg for a in f.node.args.args + f.node.args.kwonlyargs} - {"self", "cls"}
+        rebound = {t.id for n in ast.walk(f.node) if isinstance(n, ast.Assign) for t in n.targets if isinstance(t, ast.Name)}
+        for n in ast.walk(f.node):
+            nm = None
+            if isinstance(n, ast.Call) and isinstance(n.func, ast.Attribute) and n.func.attr in MUT and isinstance(n.func.value, ast.Name):
+                nm = n.func.value.id
+            if isinstance(n, (ast.Assign, ast.AugAssign)):
+                for t in (n.targets if isinstance(n, ast.Assign) else [n.target]):
+                    if isinstance(t, ast.Subscript) and isinstance(t.value, ast.Name):
+                        nm = t.value.id
+            if nm in params:
+                out.append((q, nm, n.lineno, nm in rebound))
     return out
 
 
@@ -59,6 +113,97 @@ def limiter_witness():
                 if alone != after:
                     return {"input": {"limit": N, "earlier_file": first, "file": second}, "why": f"file renders as {after!r} after the earlier file, {alone!r} on its own"}
     return None
+
+
+def volatile_witness(lang):
+    """a user template with literal arguments to the unique-name filter, rendered in three runs of one process"""
+    import pathlib, shutil, tempfile, pydsdl
+    from vk import render
+    from nunavut._namespace import build_namespace_tree
+    from nunavut.jinja import DSDLCodeGenerator
+    base = pathlib.Path(tempfile.mkdtemp(prefix="vk_c10v_"))
+    try:
+        (base / "ns").mkdir()
+        (base / "tpl").mkdir()
+        for nm in ("A", "B", "C"):
+            (base / f"ns/{nm}.1.0.dsdl").write_text("uint8 x\n@sealed\n")
+        (base / "tpl/Any.j2").write_text("{{ 'tmp' | to_template_unique_name }},{{ 'tmp' | to_template_unique_name }}\n")
+        outs = []
+        for k in range(3):
+            ctx = render.language_context(lang)
+            types = pydsdl.read_namespace(str(base / "ns"), [])
+            out = base / f"o{k}"
+            ns = build_namespace_tree(types, str(base / "ns"), str(out), ctx)
+            DSDLCodeGenerator(ns, templates_dir=base / "tpl").generate_all()
+            outs.append({p.name: p.read_text() for p in out.rglob("*") if p.is_file()})
+        names = sorted(outs[0])
+        first = outs[0][names[0]]
+        for k, o in enumerate(outs):
+            for nme in names:
+                if o[nme] != first:
+                    return {"input": {"language": lang, "user_template": "{{ 'tmp' | to_template_unique_name }},{{ 'tmp' | to_template_unique_name }}"},
+                            "why": f"run {k}, {nme}: {o[nme].strip()!r}; first file of the first run: {first.strip()!r}"}
+        return None
+    except Exception as ex:
+        return {"harness_error": f"{type(ex).__name__}: {ex}", "input": None, "why": ""}
+    finally:
+        shutil.rmtree(base, ignore_errors=True)
+
+
+def native_history_witness():
+    """earlier runs in the same process must not change a later run: (different stropping configuration, auditing on,
+    another type set) then a plain run, compared with a fresh-process style plain run"""
+    import hashlib, pathlib, shutil, tempfile, pydsdl
+    from vk import render
+    from nunavut._namespace import build_namespace_tree
+    from nunavut.jinja import DSDLCodeGenerator, SupportGenerator
+    if "w" in _HW:
+        return _HW["w"]
+    base = pathlib.Path(tempfile.mkdtemp(prefix="vk_c10h_"))
+    try:
+        files = {"ns/A.1.0.dsdl": "ns.B.1.0 b\nuint8 register\n@sealed\n", "ns/A.2.0.dsdl": "ns.B.2.0 b\n@sealed\n", "ns/B.1.0.dsdl": "uint8 x\n@sealed\n",
+                 "ns/B.2.0.dsdl": "uint16 x\n@sealed\n", "ns/torque/T.1.0.dsdl": "uint8 v\n@sealed\n", "ns/Motor.1.0.dsdl": "float32 torque\n@sealed\n"}
+        for rel, t in files.items():
+            (base / rel).parent.mkdir(parents=True, exist_ok=True)
+            (base / rel).write_text(t)
+
+        def gen(out, lang="c", options=None, audit=False, subset=None, overrides=None):
+            from nunavut.lang import LanguageContextBuilder
+            b = LanguageContextBuilder(include_experimental_languages=True).set_target_language(lang)
+            for k, v in (overrides or {}).items():
+                b.set_target_language_configuration_override(k, v)
+            ctx = b.create()
+            types = pydsdl.read_namespace(str(base / "ns"), [])
+            if subset:
+                types = [t for t in types if t.short_name in subset]
+            ns = build_namespace_tree(types, str(base / "ns"), str(out), ctx)
+            DSDLCodeGenerator(ns).generate_all(False, True, False, audit)
+            SupportGenerator(ns).generate_all(False, True, False, audit)
+            return {p.relative_to(out).as_posix(): hashlib.sha256(p.read_bytes()).hexdigest() for p in out.rglob("*") if p.is_file()}
+
+        for lang in ("c", "cpp"):
+            ref = gen(base / f"ref_{lang}", lang)
+            gen(base / f"h1_{lang}", lang, overrides={"stropping_prefix": "zz_"})
+            gen(base / f"h2_{lang}", lang, audit=True)
+            gen(base / f"h3_{lang}", lang, subset=("Motor",))
+            again = gen(base / f"again_{lang}", lang)
+            diff = [f for f in ref if again.get(f) != ref[f]]
+            if diff:
+                _HW["w"] = {"input": {"language": lang, "history": ["run with stropping_prefix=zz_", "run with auditing info", "run of the subset {Motor}", "plain run"]},
+                            "why": f"the plain run after that history differs from the plain run before it in {diff[:4]}"}
+                return _HW["w"]
+            sub = gen(base / f"sub_{lang}", lang, subset=("Motor",))
+            d2 = [f for f in sub if f in ref and sub[f] != ref[f] and "_1_0" in f]
+            if d2:
+                _HW["w"] = {"input": {"language": lang, "subset": ["Motor"]}, "why": f"subset run differs from the whole-namespace run in {d2[:4]}"}
+                return _HW["w"]
+        _HW["w"] = None
+        return None
+    finally:
+        shutil.rmtree(base, ignore_errors=True)
+
+
+_HW = {}
 
 
 def native_subset_witness():
@@ -107,7 +252,8 @@ def main():
     for q, what, line in sites:
         by_fn.setdefault(q, []).append((what, line))
     for q, items in sorted(by_fn.items()):
-        what = "; ".join(w for w, _ in items)[:120]
+        roots = sorted({w for w, _ in items})
+        what = "; ".join(roots)[:160]
         name = f"{q}#shared-state"
         if q not in K.CLASSIFY:
             if q == "nunavut._postprocessors:LimitEmptyLines.__call__":
@@ -117,19 +263,70 @@ def main():
                                         + (f"; real code: {w['input']}: {w['why']}" if w else ""), {"witness": w}, bool(w)))
             else:
                 run.add_check(name, False, "E-FX shared-state frame", 0, f"unclassified write to state that outlives one file: {what}")
-                run.fail(report.Failure(name, "frame", f"{ix.fns[q].file}:{items[0][1]}: unclassified write to state that outlives one file's generation: {what}", {}, False))
+                w = native_history_witness()
+                run.fail(report.Failure(name, "frame", f"{ix.fns[q].file}:{items[0][1]}: unclassified write to state that outlives one file's generation: {what}"
+                                        + (f"; {w['input']}: {w['why']}" if w else ""), {"witness": w}, bool(w)))
             continue
-        kind, why = K.CLASSIFY[q]
+        kind, why = K.CLASSIFY[q][0], K.CLASSIFY[q][1]
+        expected = K.CLASSIFY[q][2] if len(K.CLASSIFY[q]) > 2 else None
         ok = True
         detail = f"{kind}: {why} [{what}]"
         if kind == "build" and q in reachable:
             ok = False
             detail = f"classified as construction-time but reachable from the per-file entry points: {what}"
+        if expected is not None and set(roots) != set(expected):
+            ok = False
+            detail = f"the state this function writes changed: now {roots}, classified for {sorted(expected)} ({kind}: {why})"
         run.add_check(name, ok, "E-FX shared-state frame", 0, detail)
         if not ok:
-            run.fail(report.Failure(name, "frame", f"{ix.fns[q].file}: {detail}", {}, False))
+            w = native_history_witness()
+            run.fail(report.Failure(name, "frame", f"{ix.fns[q].file}: {detail}" + (f"; {w['input']}: {w['why']}" if w else ""), {"witness": w}, bool(w)))
         if kind in ("cache", "run"):
             run.assume(f"{q}: {kind} -- {why}")
+    # every classified memoisation must still be there in the classified form (a hand-rolled replacement is a new site)
+    for q, c in K.CLASSIFY.items():
+        if len(c) > 2 and q not in by_fn and q in ix.fns and c[2]:
+            run.add_check(f"{q}#shared-state", False, "E-FX shared-state frame", 0, f"classified memoisation {sorted(c[2])} is gone")
+            w = native_history_witness()
+            run.fail(report.Failure(f"{q}#shared-state", "frame", f"{ix.fns[q].file}: the classified memoisation {sorted(c[2])} was replaced" + (f"; {w['input']}: {w['why']}" if w else ""), {"witness": w}, bool(w)))
+    # caller-owned containers are not mutated in place on the generator path
+    for q, nm, line, rebound in param_mutations(ix):
+        name = f"{q}#parameter-mutated-in-place:{nm}"
+        ok = q in K.PARAM_MUTATION_OK
+        run.add_check(name, ok, "E-FX frame", 0, f"{ix.fns[q].file}:{line}: in-place mutation of parameter `{nm}`" + (f" -- {K.PARAM_MUTATION_OK[q]}" if ok else ""))
+        if not ok:
+            run.fail(report.Failure(name, "frame", f"{ix.fns[q].file}:{line}: parameter `{nm}` (the caller's object) is mutated in place; a container reused for another generator carries the change along", {}, False))
+    # structure of the two mechanisms the classification relies on
+    q = "nunavut.lang._common:UniqueNameGenerator.reset"
+    if q in ix.fns:
+        body = [ast.unparse(st) for st in ix.fns[q].node.body if not (isinstance(st, ast.Expr) and isinstance(st.value, ast.Constant))]
+        ok = body == ["cls._singleton = cls()"] and len(ix.fns[q].node.args.args) == 1
+        run.add_check("UniqueNameGenerator.reset#replaces-the-whole-generator", ok, "E-FX structure", 0, str(body))
+        if not ok:
+            w = native_history_witness()
+            run.fail(report.Failure("UniqueNameGenerator.reset#replaces-the-whole-generator", "frame", f"reset() no longer replaces the whole name generator: {body}" + (f"; {w['input']}: {w['why']}" if w else ""), {"witness": w}, bool(w)))
+    q = "nunavut._utilities:cached_property.__get__"
+    if q in ix.fns:
+        src = ast.unparse(ix.fns[q].node)
+        ok = "cache = instance.__dict__" in src and "cache[self._attr_name] = val" in src and "self.__dict__" not in src
+        run.add_check("cached_property.__get__#value-cached-on-the-instance", ok, "E-FX structure", 0, "")
+        if not ok:
+            w = native_history_witness()
+            run.fail(report.Failure("cached_property.__get__#value-cached-on-the-instance", "frame", "cached_property no longer stores the value in the instance's own __dict__" + (f"; {w['input']}: {w['why']}" if w else ""), {"witness": w}, bool(w)))
+    # filters that read the per-file name generator must not be constant-folded at template compile time
+    for q, f in sorted(ix.fns.items()):
+        if "UniqueNameGenerator.get_instance()" in ast.unparse(f.node) and f.name.startswith("filter_"):
+            decos = [ast.unparse(d) for d in f.node.decorator_list]
+            ok = any("template_volatile_filter" in d or "template_context_filter" in d or "template_environment_filter" in d for d in decos)
+            name = f"{q}#per-file-state-filter-is-volatile"
+            run.add_check(name, ok, "E-FX", 0, f"decorators {decos}")
+            if not ok:
+                w = volatile_witness(f.module.split(".")[-1])
+                if w and w.get("harness_error"):
+                    run.notes["volatile_witness_error"] = w["harness_error"]
+                    w = None
+                run.fail(report.Failure(name, "frame", f"{f.file}:{f.node.lineno}: {f.name} reads the per-file unique-name state but is not marked volatile: the template compiler may fold it at compile time"
+                                        + (f"; {w['input']}: {w['why']}" if w else ""), {"witness": w}, bool(w)))
     # reset obligations: both resets happen in _generate_code before the output file is opened (rendering is lazy and
     # happens while the file is written)
     q = "nunavut.jinja:CodeGenerator._generate_code"
@@ -159,6 +356,11 @@ def main():
     run.add_function(f"{len(by_fn)} functions writing state that outlives one file (of {len(ix.fns)} scanned)", "CodeGenerator._generate_code (reset order)")
     run.notes["shared_state_sites"] = len(sites)
     # UniqueNameGenerator.__call__: E-PY contract would need nested maps of ints; covered by the reset obligation + bounded check
+    hw = native_history_witness()
+    run.add_bounded("a plain run after (other stropping prefix, auditing on, subset) runs in the same process equals the plain run before; subset == whole for shared types (c, cpp)",
+                    "6 types incl. two versions of one type and a field/namespace name clash, 2 languages", 12, hw is None, str(hw or ""))
+    if hw and not run.failures:
+        run.fail(report.Failure("native#history", "frame", f"{hw['input']}: {hw['why']}", {"witness": hw}, True))
     w = native_subset_witness()
     run.add_bounded("whole namespace vs dependency-closed subset vs reversed order: shared files byte-identical (c, py)", "3 types, 3 variants, 2 languages", 6, w is None, str(w or ""))
     if w:
